@@ -2,6 +2,7 @@
 mod c15;
 mod c25;
 mod c30;
+mod c30two;
 mod launch;
 
 fn main() {
